@@ -270,12 +270,14 @@ class AsyncFIXConnection:
             f" {repr(msg.msg_type)}\n\t {msg_raw.decode()}\n"
         )
 
-        self._socket_writer.write(encoded_msg)
-        await self._socket_writer.drain()
-
+        # Journal first: the number is consumed as soon as it is allocated, so the
+        #   message must be recoverable even if the write / drain never completes
         self._journaler.persist_msg(
             encoded_msg, self._session, MessageDirection.OUTBOUND
         )
+
+        self._socket_writer.write(encoded_msg)
+        await self._socket_writer.drain()
 
     async def send_test_req(self):
         """Sends TestRequest(35=1) and sets TestReqID for expected response from peer.
